@@ -74,7 +74,7 @@ ENCODED = [
     "tensorly.regression.tucker_regression.TuckerRegressor.fit",
 ]
 BOUNDS = {
-    "quick": "mode sizes 2, order 3 data tensors (order 2 for matrices), ranks <= 2 (one rank-3 SVD-padding case), one outer sweep, tol=0, "
+    "quick": "mode sizes 2, order 3 data tensors (order 2 for matrices, 2x2x1 for randomised_parafac), ranks <= 2 (one rank-3 SVD-padding case; PARAFAC2 R=1), one outer sweep, tol=0, "
     "seeds {0, 2**31-1} (the stream model is parametric in the seed), 2+2 runs per path",
     "thorough": "additionally seed 1, two outer sweeps for the CP / TR-ALS / regression entry points, a 3x2x2 data tensor; PARAFAC2 at R=1 only",
 }
@@ -83,6 +83,9 @@ OUTSIDE = [
     "symmetric_parafac_power_iteration / parafac_power_iteration: draw from np.random directly but accept no random_state (not in the quantifier)",
     "non-NumPy backends; bit-level behaviour of the Mersenne Twister itself (modelled as an uninterpreted function of seed, draw index and position)",
     "sizes > 3, more than two sweeps",
+    "tensor_ring_als_sampled(uniform_sampling=False): leverage_score_dist concretises an index from a comparison of SVD stub outputs (int(None) on a path); the uniform variant is covered",
+    "parafac2 at R=2 (the orthonormality validation of projections built from SVD stub outputs is not decided within the branch budget): R=1 only",
+    "tucker / randomised_parafac with two sweeps (> 4000 paths from svd_flip / integer draws); CP_PLSR (accepts random_state, never uses it; its code compares against inf)",
 ]
 TRUSTED = [
     "z3",
